@@ -52,7 +52,7 @@ NOT_APPLICABLE = {
 
 
 WF = 'wf(compiled automaton): state/end_state vectors same non-zero length, transition targets in range, accepting token types listed in terminal_ids, lookahead automata well-formed and lookahead-free. PRODUCER SIDE PROVED in unit U-build (checked under C01, C02, C06, C07): ScannerImpl::try_from ensures scanner_wf for every valid configuration within the size assumptions (theorem_dfa_built_wf: what CompiledDfa::try_from_patterns returns is wf), the transition lists being those of the configuration'
-CLS = 'the class predicate closure is a total deterministic function of (class id, char) (cls_functional): trusted contract of CharacterClassRegistry::create_match_char_class (class layer, unsafe get_unchecked; not under contract)'
+CLS = 'the class predicate closure is deterministic and may be called with every class id the automaton refers to (cls_functional(f, d)): PROVED for the closure CharacterClassRegistry::create_match_char_class returns (unit U-reg: callable on every registered id = the bound of its unsafe get_unchecked; answers leaf_sem of the registered leaf) and ESTABLISHED by ScannerImpl::try_from for every mode (unit U-build, theorem_scanner_classes_registered); assumed: cls_returns (a call of the predicate within its precondition has an outcome), std contract of <[T]>::get_unchecked'
 
 ITER = 'fm_inv(iterator): cursor on a char boundary of the input, line_offsets sorted true line starts beginning with 0, last_char consistent with the char before the cursor (established by FindMatchesImpl::new, preserved by every method; proved)'
 UTF8 = 'UTF-8 bridge axioms (units/common/str_prelude.rs): byte offsets of char prefixes are char boundaries, byte length = sum of encoded lengths, slicing at such an offset splits the char sequence there'
@@ -79,7 +79,7 @@ reg('C10', ['u_iter'],
 reg('C07', ['u_dfa', 'u_mode', 'u_iter', 'u_sub', 'u_mp', 'u_elim', 'u_glue', 'u_mini', 'u_build', 'u_reg'],
     'spans non-empty (l >= 1), start/end are byte offsets of char indices of the input (boff), start >= previous end (cursor monotone), Some(m) => cursor strictly advances, None => cursor at end and stays there (no_more); absence of panics while scanning = every index/unwrap/overflow/slice-boundary obligation of the functions under contract. '
     'Build side (partial): every index / unwrap / expect / panic! / overflow obligation and the termination of the build functions under contract (closure layer, multi-pattern union, epsilon-elimination worklists, minimizer, lookahead glue: units U-sub, U-mp, U-elim, U-mini, U-glue) is discharged for automata that fit the 32-bit state ids: the four panic!("State .. not found") / "NFA for target state not found" sites and `.expect("NFA not found")` are unreachable, the worklists terminate; in the minimizer every unwrap (find_group, first(), position(), get_mut), every index and the panic! of renumber_states_in_transitions are unreachable and the refinement loop terminates',
-    [WF, CLS, ITER, UTF8, 'build side NOT decided for: regex-syntax parser, create_match_char_class (MatchFunction::try_from per registry entry), ScannerBuilder; Nfa::try_from_ast is covered by C02/C15 (unit U-nfa: overflow obligations under th_fits); size preconditions th_fits / mp_fits (automata within 32-bit state ids) are assumed, beyond them ids wrap (C17)'])
+    [WF, CLS, ITER, UTF8, 'build side NOT decided for: regex-syntax parser, ScannerBuilder; create_match_char_class and its unsafe get_unchecked are under contract (unit U-reg); Nfa::try_from_ast is covered by C02/C15 (unit U-nfa: overflow obligations under th_fits); size preconditions th_fits / mp_fits (automata within 32-bit state ids) are assumed, beyond them ids wrap (C17)'])
 reg('C09', ['u_iter', 'u_api'],
     'position(o): line = 1 + number of line breaks before o and column = o - line start + 1 whenever all line starts up to o are recorded (complete_upto), or the permitted same-line alternative right after a line break; next_match/advance_to record every line start of the consumed region; set_offset recomputes last_char; merge keeps line_offsets sorted, duplicate free, true line starts',
     [ITER, UTF8, 'WithPositions::next itself (generic over the inner iterator) is not under contract; its two calls are position(m.start()) and position(m.end()) after next()'])
@@ -122,7 +122,7 @@ reg('C13', ['u_cache'],
 reg('C08', ['u_class', 'u_reg'],
     'membership in a bracketed class is the boolean combination of its items, for every char and every nesting depth: literals (only themselves), ranges (inclusive), nested classes, union, && -- ~~ and negation at item, bracket and binary-operator level, by structural recursion over the imported regex_syntax AST; named items (\\d \\s \\w, [:alpha:], \\p{..}) are uninterpreted leaves that contribute exactly the set they denote alone',
     ['the MatchFn wrapper (Box<dyn Fn(char)->bool>, new/inner) is trusted: `x.inner()(c)` is read as the value of the boxed closure',
-     'NOT decided: the ASCII facts about \\d \\s \\w (they are statements about char::is_numeric/is_whitespace/is_alphanumeric and seshat tables) and `.` as a top-level Dot node (MatchFunction::try_from(&Ast) is not under contract)',
+     'NOT decided: the ASCII facts about \\d \\s \\w (they are statements about char::is_numeric/is_whitespace/is_alphanumeric and seshat tables)', 'top level (unit U-class): MatchFunction::try_from(&Ast): Dot = everything except \\n \\r, Literal = lit_in, bracketed / perl / unicode nodes = their class meaning, any other node is rejected; unit U-reg: the predicate the scanner evaluates (create_match_char_class) is leaf_sem of the registered AST for every registered id',
      'the [:class:] arm, TryFrom<&ClassUnicode> and TryFrom<&ClassPerl> are trusted leaves', 'regex_syntax::ast types are what the crate (0.8.x in the offline registry) declares'],
     technique='Verus function contracts by structural recursion over the imported AST; closure contracts generated from closure bodies')
 
@@ -144,13 +144,13 @@ reg('C02', ['u_nfa', 'u_sub', 'u_mp', 'u_elim', 'u_glue', 'u_lang', 'u_mini', 'u
      'PROVED at spec level (unit U-glue, glue_lang.rs, re-checked on every run): theorem_single_pattern_language: for the Nfa returned by try_from_ast for an AST and every elim_ok automaton d0 of it (= what From<Nfa> hands the minimizer; every lookahead automaton), every non-empty word w and token type tid: d_acc(d0, cls, w, tid) <==> re_lang(ast, lf, w) and tid is the pattern\'s token type. theorem_union_language: for the union m built by try_from_patterns (mp_built) and every elim_ok automaton d0 of it (= what From<MultiPatternNfa> hands the minimizer): d_acc(d0, cls, w, tid) <==> some pattern i of the mode has token type tid and re_lang(spec_parse(pattern i), lf, w). Proved through the bridge between runs of the Thompson view and the closure-folded runs of the graph view for renumbered NFAs (shifted_view, lemma_n_accepts) and lemma_mp_lands (landing in the union = landing in one pattern NFA)',
      'PROVED at spec level, END TO END THROUGH THE MINIMIZER (glue_lang.rs, re-checked on every run): theorem_single_pattern_minimized: for the automaton dm that From<Nfa> returns (min_of(d0, dm): contract of Minimizer::minimize, proved in U-mini) d_acc(dm, cls, w, tid) <==> re_lang(ast, lf, w) and tid is the pattern\'s token type; theorem_union_minimized: for the automaton d that CompiledDfa::try_from_patterns returns (states and end states of the minimized union, lookahead map filled in afterwards) d_acc(d, cls, w, tid) <==> some pattern of the mode with token type tid matches w; via theorem_minimize_language / theorem_quotient_language (units/u_mini/mini_spec.rs)',
      'PROVED (the two remaining clauses of the property, units U-lang / U-build, spec level): theorem_scanner_classes_registered: every class id on a transition of a mode automaton or of one of its lookahead automata is an index into the final registry of the scanner (the one stored in the scanner and handed to create_match_char_class; ScannerImpl::try_from ensures s.character_classes.view() == final_reg(modes)), via theorem_thompson_classes_registered and its preservation by shift, union, epsilon elimination and quotient; theorem_scanner_empty_not_accepted: no mode automaton and no lookahead automaton accepts the empty string (state 0 is never entered: in the union nothing leads to state 0, in a Thompson automaton no edge leads to the start state - theorem_thompson_start_fresh; group 0 of the quotient holds state 0 and groups are acceptance-homogeneous)',
-     'NOT proved / outside: the meaning of leaves lf (class layer, C08) and its agreement with the registry-built class predicate (CharacterClassRegistry::create_match_char_class, not under contract) are hypotheses of the theorems (cls_ok, lf_respects); what regex-syntax\'s parser returns for a pattern text (spec_parse) is uninterpreted',
+     'PROVED (units U-reg, U-class, U-build): the hypotheses cls_ok / lf_respects of the language theorems hold for the real class predicate: CharacterClassRegistry::create_match_char_class ensures cls_built (every outcome of f(id, c) is leaf_sem(registry[id], c), f callable on every registered id), impl PartialEq for ComparableAst computes same_class (now defined: same kind and same printed text for class nodes, same c and kind for literals), lemma_leaf_sem_respects, theorem_built_cls_ok, and the instantiations theorem_built_scanner_acc / theorem_built_scanner_cand for the scanner ScannerImpl::try_from returns with its own predicate; remaining hypothesis cls_returns (a call of the predicate has an outcome), trusted axiom_print_faithful (class nodes of one kind that regex-syntax prints identically denote the same set), trusted cut U7 (the string comparison); what regex-syntax\'s parser returns for a pattern text (spec_parse) is uninterpreted',
      'PROVED (unit U-build): CompiledScannerMode::try_from_scanner_mode and both impl TryFrom<..> for ScannerImpl: the scanner has one compiled mode per mode of the configuration, in order, each being dfa_built (the postcondition of CompiledDfa::try_from_patterns) for its patterns on the registry left by the modes before it (mode_reg), name and transitions carried over, current mode 0, and scanner_wf; theorem_mode_language: mode k accepts (w, tid) iff some pattern of mode k with token type tid matches w',
-     'NOT under contract (bounded stand-in only, see coverage.bounded_stand_in): CharacterClassRegistry::create_match_char_class (trusted contract: total deterministic closure; that it agrees with the leaf meaning is hypothesis cls_ok), the regex-syntax parser, ScannerBuilder / Scanner::try_new above ScannerImpl::try_from',
+     'NOT under contract (bounded stand-in only, see coverage.bounded_stand_in): the regex-syntax parser, ScannerBuilder / Scanner::try_new above ScannerImpl::try_from',
      'TRUSTED std contracts given through wrappers (rule U5, the call is moved verbatim into an external_body function): BTreeSet::from_iter(Vec), btree_set::Iter::cloned, HashSet::into_iter, `map.iter().find(|(_, v)| **v == id).unwrap().0.clone()`; trusted contracts sort_unstable / sort_by_key / dedup (permutation, adjacent-duplicate removal), <[T]>::contains',
      'TRUSTED axioms: derived Ord of the id newtypes and of (CharClassID, StateID) is the integer / lexicographic order; BTreeSet<StateID> as a hash key has the equality of its element set; Clone of (bool, TerminalID) is the identity; FxBuildHasher builds valid hashers',
      'TRUSTED CUTS: the Err arm of try_from_patterns (message rebuilt with the pattern index) is replaced by returning an opaque error (U4); the debug `patterns` text of the compiled automaton is opaque (U6); regex-syntax\'s parser is external (spec_parse uninterpreted)',
-     'TRUSTED: CharacterClassRegistry::add_character_class returns the index of the first ComparableAst-equal entry or appends (position() with a string-comparing PartialEq); derived Clone/Default of Nfa, NfaState, Literal, Span, Ast, Pattern are field-wise',
+     'derived Clone/Default of Nfa, NfaState, Literal, Span, Ast, Pattern are field-wise',
      'preconditions: automata fit the 32-bit state ids and have fewer than u32::MAX states (th_fits / mp_fits / la_fit1 and mp_off(all) < u32::MAX: precondition d_wf of the minimizer); Nfa::get_match_transitions indexes the state vector by id, so it is only correct for unshifted automata (n_off == 0), which is how From<Nfa> uses it'],
     level_text='proof that the code implements the four specified constructions exactly (Thompson, union, epsilon elimination, quotient by a stable partition) and chains them from the pattern text to the minimized automaton, lookaheads included; the language theorems of all four are proved at spec level and composed end to end; the parser, the class-predicate layer and the mode/registry layer above are covered only by a bounded stand-in that is run on every check and labelled as such',
     technique='Verus function contracts and loop invariants against spec-level constructions (structural refinement), one abstract epsilon-NFA instantiated for Nfa and MultiPatternNfa + bounded stand-in for the functions out of reach',
